@@ -3,6 +3,7 @@ package main
 import (
 	. "vh/lib"
 	"vh/lts"
+	"vh/transports"
 )
 
-func main() { Main(map[string]func(Val) Val{"C01_lts": lts.Run}) }
+func main() { Main(map[string]func(Val) Val{"C01_lts": lts.Run, "C01_transports": transports.Run}) }
